@@ -347,12 +347,18 @@ class BayesianProblem(object):
         if isinstance(self._target, JointDistribution):       
             return self._sampleGibbs(Ns, Nb, callback=callback, experimental=experimental)
 
+        # The direct sampler and Linear RTO use the model matrix (and its transpose) as the map between parameters, which it is
+        # only if the geometries of the model do not transform the parameters (otherwise fall through to the general samplers)
+        identity_geometries = cuqi.geometry._get_identity_geometries()
+        matrix_maps_parameters = type(self.model.domain_geometry) in identity_geometries and\
+            type(self.model.range_geometry) in identity_geometries
+
         # For Gaussian small-scale we can use direct sampling
-        if self._check_posterior(self, Gaussian, Gaussian, LinearModel, config.MAX_DIM_INV) and not self._check_posterior(self, GMRF):
+        if matrix_maps_parameters and self._check_posterior(self, Gaussian, Gaussian, LinearModel, config.MAX_DIM_INV) and not self._check_posterior(self, GMRF):
             return self._sampleMapCholesky(Ns, callback)
 
         # For larger-scale Gaussian we use Linear RTO. TODO: Improve checking once we have a common Gaussian class.
-        elif hasattr(self.prior,"sqrtprecTimesMean") and hasattr(self.likelihood.distribution,"sqrtprec") and isinstance(self.model,LinearModel):
+        elif matrix_maps_parameters and hasattr(self.prior,"sqrtprecTimesMean") and hasattr(self.likelihood.distribution,"sqrtprec") and isinstance(self.model,LinearModel):
             return self._sampleLinearRTO(Ns, Nb, callback, experimental=experimental)
 
         # For LMRF we use our awesome unadjusted Laplace approximation!
